@@ -279,10 +279,18 @@ c15.append(job("concurrent-2",  "aucoalesce","VH_ConcurrentResolve",["C15/"],{"t
 c15.append(job("concurrent-3",  "aucoalesce","VH_ConcurrentResolve",["C15/"],{"threads":3,"preemptions":2},T,no_native=True,bounds="3 goroutines, at most 2 preemptions"))
 C["C15"]={"jobs":c15,"assumptions":COAL_ASSUME,"outside":["arbitrary message text (C05 covers the parser's totality)","ResolveIDs against real user databases"]}
 
-RTF=["pid","uid","gid","auid","exit","msgtype","arch","path","exe","key","perm","filetype","a0","success","inode","subj_user","obj_uid","dir"]
+RTF=["pid","uid","gid","auid","exit","msgtype","arch","path","exe","key","perm","filetype","a0","success","inode","subj_user","obj_uid","dir",
+ "euid","suid","fsuid","egid","sgid","fsgid","obj_gid","ppid","devmajor","devminor","a1","a2","a3","saddr_fam","pers",
+ "obj_user","obj_role","obj_type","obj_lev_low","obj_lev_high","subj_role","subj_type","subj_sen","subj_clr"]
+RTF_FIRST=18
 c07=[]
 for i,f in enumerate(RTF):
     if f in ("key","dir","perm"): continue
+    if i>=RTF_FIRST:
+        c07.append(job("field-"+f,"rule/flags","VH_RoundTrip",["C07/"],{"shape":0,"field":i,"list":0,"digits":3,"smalldigits":3,"strmax":1,"maxkeys":0,"sysforms":2},Q,expect=["C07/accepted-by-build"],
+           bounds=f"syscall rule with one {f} filter (every operator; 3 symbolic decimal digits / -1 / root / string of 0..1 plain bytes) x action x {{no -S, -S open|execve|all}}"))
+        c07.append(job("field10-"+f,"rule/flags","VH_RoundTrip",["C07/"],{"shape":0,"field":i,"list":0,"digits":10,"smalldigits":4,"strmax":2,"maxkeys":1,"sysforms":3},T,expect=["C07/accepted-by-build"],bounds=f"as field-{f} with 10 symbolic digits, strings of 0..2 bytes, 0..1 key, -S by number"))
+        continue
     lst = 2 if f=="msgtype" else 0
     wide = f in ("uid","gid","msgtype","a0")
     if wide:
@@ -297,6 +305,9 @@ for (a,b) in [("uid","arch"),("arch","uid"),("path","perm"),("perm","path"),("ex
     if b=="msgtype": continue
     c07.append(job(f"two-{a}-{b}","rule/flags","VH_RoundTrip",["C07/"],{"shape":0,"field":RTF.index(a),"second":RTF.index(b),"list":0,"digits":3,"strmax":1,"maxkeys":1,"sysforms":2,"oneop":1,"realpath":1},Q,expect=["C07/accepted-by-build"],
        bounds=f"two filters in the order {a}, {b} (field order, watch-shaped rules)"))
+c07.append(job("compare-alone","rule/flags","VH_RoundTrip",["C07/"],{"shape":0,"field":0,"list":0,"compare":2,"maxkeys":0,"sysforms":1},Q,expect=["C07/accepted-by-build"],bounds="syscall rule whose only filter is -C a<op>b: 25 UAPI pairs x both orders x {=, !=} x action"))
+c07.append(job("compare-alone-S-key","rule/flags","VH_RoundTrip",["C07/"],{"shape":0,"field":0,"list":0,"compare":2,"maxkeys":1,"sysforms":3},T,expect=["C07/accepted-by-build"],bounds="as compare-alone x {no -S, -S name, -S number} x 0..1 key"))
+c07.append(job("compare-after-filter","rule/flags","VH_RoundTrip",["C07/"],{"shape":0,"field":0,"list":0,"digits":2,"compare":1,"maxkeys":0,"sysforms":1,"oneop":1},Q,expect=["C07/accepted-by-build"],bounds="pid filter followed by a -C comparison (25 pairs x both orders x 2 operators)"))
 c07.append(job("multikey","rule/flags","VH_RoundTrip",["C07/"],{"shape":0,"field":0,"list":0,"digits":2,"maxkeys":3,"sysforms":2,"oneop":1},Q,expect=["C07/accepted-by-build"],bounds="syscall rule with a pid filter and 0..3 keys of 1..2 plain bytes each (joined keys)"))
 c07.append(job("watch","rule/flags","VH_RoundTrip",["C07/"],{"shape":1},Q,expect=["C07/accepted-by-build"],bounds="file watches on a file, a directory and a non-existing path (Stat stub) x 16 permission subsets x 0..1 key"))
 C["C07"]={"jobs":c07,"assumptions":RULE_ASSUME+PARSE_ASSUME[:2]+["string values contain no white space, quotes, backslashes or control characters (ToCommandLine does not quote)","resolveIds=false","watch-shaped rules use paths the Stat stub (and any Linux file system) classifies the same way in both Build calls"],
